@@ -122,7 +122,8 @@ static void put_hex(const unsigned char *p, size_t n) { for (size_t i = 0; i < n
 
 
 class _DriverGen:
-    def __init__(self, unit: Unit, messages: List[Message], with_json: bool, cxx: bool):
+    def __init__(self, unit: Unit, messages: List[Message], with_json: bool, cxx: bool, size_from_model: bool = False):
+        self.size_from_model = size_from_model
         self.unit = unit
         self.messages = messages
         self.with_json = with_json
@@ -199,7 +200,7 @@ class _DriverGen:
         for k, m in enumerate(self.messages):
             sn = struct_name(m)
             al = f"alignof(struct {sn})" if self.cxx else f"_Alignof(struct {sn})"
-            out.append(f"    {{ sizeof(struct {sn}), {al}, {size_macro(m)} }},")
+            out.append(f"    {{ sizeof(struct {sn}), {al}, {ref.nbytes(m) if self.size_from_model else size_macro(m)} }},")
         out.append("    {0, 0, 0} };")
         out.append(f"#define JSON_MAX {jsonmax}")
         # dispatchers
@@ -392,7 +393,8 @@ class Crash(Exception):
 class CDriver:
     """Built driver executable for one unit + generated C directory."""
 
-    def __init__(self, unit: Unit, gendir: str, messages: Optional[List[Message]] = None, cfg: Optional[CConfig] = None, with_json: bool = True, workdir: Optional[str] = None):
+    def __init__(self, unit: Unit, gendir: str, messages: Optional[List[Message]] = None, cfg: Optional[CConfig] = None, with_json: bool = True, workdir: Optional[str] = None, size_from_model: bool = False):
+        self.size_from_model = size_from_model
         self.unit = unit
         self.gendir = gendir
         self.cfg = cfg or CConfig()
@@ -404,7 +406,7 @@ class CDriver:
 
     def _build(self) -> None:
         cfg = self.cfg
-        src = _DriverGen(self.unit, self.messages, self.with_json, cfg.cxx_driver).generate()
+        src = _DriverGen(self.unit, self.messages, self.with_json, cfg.cxx_driver, self.size_from_model).generate()
         ext = ".cpp" if cfg.cxx_driver else ".c"
         drv = os.path.join(self.dir, "drv" + ext)
         with open(drv, "w") as f:
